@@ -45,7 +45,7 @@ try:
     checks = {}
     for p in props:
         t0 = time.time()
-        r = sh(["./check", p, "--tier", "quick"], cwd="/verif", env=dict(os.environ, VERIF_REPO=wt))
+        r = sh(["./check", p, "--tier", "quick"], cwd="/verif", env=dict(os.environ, VERIF_REPO=wt, VERIF_EVIDENCE="/var/tmp/seed-evidence"))
         out = r.stdout.decode(errors="replace")
         checks[p] = {"exit": r.returncode, "violations": sum(1 for l in out.splitlines() if l.startswith("VIOLATION")),
                      "keys": [l.strip()[:220] for l in out.splitlines() if l.strip().startswith("key=")][:5], "seconds": round(time.time() - t0)}
